@@ -443,7 +443,12 @@ class World(object):
 
 def norm_arg(a):
     from rpyc.core import brine
-    return a if brine.dumpable(a) else repr(a)
+    if brine.dumpable(a):
+        return a
+    try:
+        return repr(a)
+    except Exception:  # noqa  (an int beyond the str() digit limit inside it: outside brine's domain)
+        return "<repr failed>"
 
 
 def show_outcome(world, fn):
@@ -915,7 +920,7 @@ def run_case(prog):
     world.dist = False
     for a in lraw:
         if not brine.dumpable(a):
-            reprs.append((world.text(a), repr(a)))
+            reprs.append((world.text(a), norm_arg(a)))
     res.reprs = reprs
     return res
 
